@@ -1137,8 +1137,34 @@ static void run_path(uint64_t seed, uint64_t idx, const std::string& outdir, FIL
         tags.push_back(make_tag((uint32_t)e, 0));
     }
     Vec2 p0 = Vec2{0.125 * (double)g.range(-40, 40), 0.125 * (double)g.range(-40, 40)};
+    // the (count, width, separation) form of init: allowed when the elements have one width and evenly spaced offsets centred on the
+    // spine; it allocates the elements itself and gives them one tag.  What it stores is compared with the request below.
+    bool uniform = B.n > 1;
+    for (uint64_t e = 0; e < B.n && uniform; e++)
+        uniform = w[e] == w[0] && fabs(off[e] - (off[1] - off[0]) * ((double)e - 0.5 * (double)(B.n - 1))) < 1e-12;
     if (B.n == 1 && g.coin()) fp.init(p0, w[0], off[0], B.tol, tags[0]);
-    else fp.init(p0, w.data(), off.data(), B.tol, tags.data());
+    else if (uniform && g.coin()) {
+        free_allocation(fp.elements);
+        fp.elements = NULL;
+        fp.init(p0, B.n, w[0], off[1] - off[0], B.tol, tags[0]);
+        em.T("init-by-separation");
+    } else fp.init(p0, w.data(), off.data(), B.tol, tags.data());
+    // construction oracle for init: one (half width, offset) entry per element, as requested
+    {
+        std::string init_fail;
+        for (uint64_t e = 0; e < B.n && init_fail.empty(); e++) {
+            const Array<Vec2>& hwo = fp.elements[e].half_width_and_offset;
+            if (hwo.count != 1 || fabs(hwo[0].u - 0.5 * w[e]) > 1e-12 * (1 + fabs(w[e])) || fabs(hwo[0].v - off[e]) > 1e-12 * (1 + fabs(off[e]))) {
+                char ib[200];
+                snprintf(ib, sizeof ib, "element %d starts with half width %.12g and offset %.12g, init was asked for %.12g and %.12g", (int)e,
+                         hwo.count ? hwo[0].u : -1.0, hwo.count ? hwo[0].v : -1.0, 0.5 * w[e], off[e]);
+                init_fail = ib;
+            }
+        }
+        em.K("construct", gid + ";init");
+        em.I("init");
+        em.P(init_fail.empty() ? "ok" : "FAIL flexpath-construction " + init_fail);
+    }
     for (uint64_t e = 0; e < B.n; e++) {
         fp.elements[e].join_type = B.el[e].join;
         fp.elements[e].end_type = B.el[e].end;
